@@ -1,5 +1,6 @@
 (* C16: run the glyf outline model on one case line and judge the implementation's output.
-   input  = GID|g0,g1,...        gN = bytes of glyph N in hex ('-' = zero-length loca entry)
+   input  = GID|g0,g1,...[|P...] gN = bytes of glyph N in hex ('-' = zero-length loca entry); optional
+                                 third field: the contours glyph GID is meant to encode (on,x,y ... / ...)
    impl   = ok:CMD CMD ... | err:Name | panic       numbers = f32 bits (8 hex digits)
    model  = ok:CMD CMD ... | err:Name | panic       numbers = exact rationals n/d
    CMD    = M:x:y | L:x:y | Q:cx:cy:x:y | Z *)
@@ -28,12 +29,27 @@ let f32_of_hex (s : string) : float =
   if String.length s <> 8 then failwith "f32" else Int32.float_of_bits (Int32.of_string ("0x" ^ s))
 
 (* ---- input *)
-let parse_input (input : string) : (z list list * z) =
+(* third field: the contours glyph GID is meant to encode (written by the generator) *)
+let parse_hint (h : string) : (bool * (z * z)) list list =
+  let body = String.sub h 1 (String.length h - 1) in
+  if body = "" then [] else
+  List.map (fun c ->
+      List.map (fun p ->
+          match split_on ',' p with
+          | [o; x; y] -> (o = "1", (z_of_string x, z_of_string y))
+          | _ -> failwith "c16 hint")
+        (List.filter (fun x -> x <> "") (split_on ' ' c)))
+    (split_on '/' body)
+
+let parse_input3 (input : string) : (z list list * z * (bool * (z * z)) list list option) =
+  let tbl_of tbl = if tbl = "" then [] else List.map bytes_of_hex (split_on ',' tbl) in
   match split_on '|' input with
-  | [g; tbl] ->
-    let glyphs = if tbl = "" then [] else List.map bytes_of_hex (split_on ',' tbl) in
-    (glyphs, z_of_string g)
+  | [g; tbl] -> (tbl_of tbl, z_of_string g, None)
+  | [g; tbl; h] when String.length h >= 1 && h.[0] = 'P' -> (tbl_of tbl, z_of_string g, Some (parse_hint h))
   | _ -> failwith "c16 input"
+
+let parse_input (input : string) : (z list list * z) =
+  let (t, g, _) = parse_input3 input in (t, g)
 
 let cmd_to_string (f : 'a -> string) (c : 'a cmd) : string =
   match c with
@@ -128,35 +144,38 @@ let rec first_diff (k : int) (a : (float * float) cmd list) (b : expect cmd list
      | Close, Close -> first_diff (k + 1) a' b'
      | _, _ -> Some (Printf.sprintf "command %d is a different kind of command than specified" k))
 
-(* a simple glyph drawn at top level: does the implementation's output use another, equally valid,
-   on-curve starting point for some contours?  (decided with the declarative spec) *)
-let valid_by_spec (t : z list list) (gid : z) (impl : (float * float) cmd list) : bool =
+(* is the command list, contour by contour, one of the readings the specification allows
+   (contour_paths: the cyclic expansion read from any of its on-curve points)? *)
+let valid_for_contours (cs : (bool * (z * z)) list list) (impl : (float * float) cmd list) : bool =
+  let fl (p : z * z) = (z_to_float (fst p) /. 2.0, z_to_float (snd p) /. 2.0) in
+  let same (a : (float * float) cmd) (b : (z * z) cmd) =
+    match a, b with
+    | Move p, Move q | Line p, Line q -> p = fl q
+    | Quad (c, p), Quad (d, q) -> c = fl d && p = fl q
+    | Close, Close -> true
+    | _ -> false in
+  let rec take_path (l : (float * float) cmd list) acc =
+    match l with
+    | [] -> (List.rev acc, [])
+    | Close :: r -> (List.rev (Close :: acc), r)
+    | x :: r -> take_path r (x :: acc) in
+  let rec go (l : (float * float) cmd list) cs =
+    match cs with
+    | [] -> l = []
+    | c :: cr ->
+      let (p, rest) = take_path l [] in
+      List.exists (fun cand -> List.length cand = List.length p && List.for_all2 same p cand)
+        (contour_paths c)
+      && go rest cr in
+  go impl (List.filter (fun c -> c <> []) cs)
+
+(* the contours of a simple glyph as the model decodes them *)
+let decoded_contours (t : z list list) (gid : z) : (bool * (z * z)) list list option =
   match get_parsed_glyph t gid with
   | Ok (GSimple sg) ->
-    let cs = List.filter (fun c -> c <> []) (contours Z0 sg.sg_ends sg.sg_coords) in
     let to_spoint (f, p) = ((z_to_int f) land 1 = 1, p) in
-    let fl (p : z * z) = (z_to_float (fst p) /. 2.0, z_to_float (snd p) /. 2.0) in
-    let same (a : (float * float) cmd) (b : (z * z) cmd) =
-      match a, b with
-      | Move p, Move q | Line p, Line q -> p = fl q
-      | Quad (c, p), Quad (d, q) -> c = fl d && p = fl q
-      | Close, Close -> true
-      | _ -> false in
-    let rec take_path (l : (float * float) cmd list) acc =
-      match l with
-      | [] -> (List.rev acc, [])
-      | Close :: r -> (List.rev (Close :: acc), r)
-      | x :: r -> take_path r (x :: acc) in
-    let rec go (l : (float * float) cmd list) cs =
-      match cs with
-      | [] -> l = []
-      | c :: cr ->
-        let (p, rest) = take_path l [] in
-        List.exists (fun cand -> List.length cand = List.length p && List.for_all2 same p cand)
-          (contour_paths (List.map to_spoint c))
-        && go rest cr in
-    go impl cs
-  | _ -> false
+    Some (List.map (List.map to_spoint) (contours Z0 sg.sg_ends sg.sg_coords))
+  | _ -> None
 
 let top_kind (t : z list list) (gid : z) : string =
   match table_load t with
@@ -165,21 +184,40 @@ let top_kind (t : z list list) (gid : z) : string =
      | Ok GEmpty -> "E" | Ok (GSimple _) -> "S" | Ok (GComposite _) -> "C" | _ -> "-")
   | _ -> "-"
 
+(* The verdict.  Besides comparing with the model's (toleranced) expectation, an outline of a simple
+   glyph is decided from the SPECIFICATION: against the contours the generator meant to encode when
+   the input carries them (end to end: packed encoding -> points -> commands), otherwise against the
+   contours the model decodes.  So an implementation (and a model regenerated from it) that both
+   deviate from the specification is a violation with this input, not an agreement. *)
 let judge (input : string) (impl : string) (_model : string) : verdict =
-  let (t, gid) = parse_input input in
+  let (t, gid, hint) = parse_input3 input in
   let exp = expected t gid in
+  let simple_top = top_kind t gid = "S" in
+  let spec_ok (cmds : (float * float) cmd list) : bool option =
+    match hint with
+    | Some cs -> Some (valid_for_contours cs cmds)
+    | None ->
+      if simple_top then
+        (match decoded_contours t gid with Some cs -> Some (valid_for_contours cs cmds) | None -> None)
+      else None in
   match parse_impl impl, exp with
   | IBad m, _ -> Violation ("outline", m)
   | IPanic, Panic -> Agree
   | IPanic, _ -> Violation ("panic", "visit panicked instead of returning an outline or an error")
   | IOk cmds, Ok e ->
-    (match first_diff 0 cmds e with
-     | None -> Agree
-     | Some why ->
-       if top_kind t gid = "S" then
-         (if valid_by_spec t gid cmds then Mismatch ("another valid starting point than the model's: " ^ why)
-          else Violation ("contour", why))
-       else Violation ("composite", why))
+    (match first_diff 0 cmds e, spec_ok cmds with
+     | None, (None | Some true) -> Agree
+     | None, Some false ->
+       Violation ("contour", "the outline delivered (the model reproduces it) is not a reading of the specified "
+                             ^ (if hint <> None then "encoding and contour expansion" else "contour expansion"))
+     | Some why, Some true -> Mismatch ("valid by the specification, but not the model's outline: " ^ why)
+     | Some why, Some false -> Violation ((if hint <> None then "decode" else "contour"), why)
+     | Some why, None -> Violation ("composite", why))
+  | IErr e, _ when hint <> None ->
+    Violation ("decode", "visit returned " ^ e ^ " for a legal encoding of a point list")
+  | IOk cmds, _ when hint <> None ->
+    if spec_ok cmds = Some true then Mismatch "valid by the specification, the model rejects the input"
+    else Violation ("decode", "the outline is not the one of the encoded point list")
   | IErr e, Ok _ -> Violation ("spurious-error", "visit returned " ^ e ^ " for a glyph that has an outline")
   | IErr a, Err b -> if a = err_to_string b then Agree else Mismatch ("error " ^ a ^ ", model " ^ err_to_string b)
   | IOk _, Err LimitExceeded when top_kind t gid = "C" ->
